@@ -121,6 +121,10 @@ def build_world(spec, init_seed):
         kind = cs["kind"]
         model = w.models[cs.get("model", 0)]
         kw = {"name": "%s%d" % (kind, idx), "weight": float(cs.get("weight", 1.0))}
+        if cs.get("name") == "default":
+            kw.pop("name")            # users often keep the library's default name for several conditions
+        elif cs.get("name"):
+            kw["name"] = cs["name"]
         if cs.get("use_param") and w.param is not None:
             kw["parameter"] = w.param
         if kind == "data":
@@ -132,10 +136,10 @@ def build_world(spec, init_seed):
                                            batch_size=cs.get("batch", n))
             return tp.conditions.DataCondition(model, dl, norm=cs.get("norm", 2),
                                                use_full_dataset=bool(cs.get("full", False)),
-                                               name=kw["name"], weight=kw["weight"])
+                                               weight=kw["weight"], **({"name": kw["name"]} if "name" in kw else {}))
         if kind == "paramcond":
             return tp.conditions.ParameterCondition(w.param, lambda k: torch.sum((k - 2.0) ** 2),
-                                                    weight=kw["weight"], name=kw["name"])
+                                                    weight=kw["weight"], **({"name": kw["name"]} if "name" in kw else {}))
         smp = _sampler(cs["sampler"])
         res = _resid(cs["resid"], float(cs.get("c", 1.0)))
         if cs.get("data_fn"):
